@@ -43,6 +43,9 @@ type MBlock struct {
 	Type   string
 	Labels []string
 	Body   *ast.Body
+	// Unknown: the block stands for the blocks of a dynamic block whose for_each is
+	// unknown; every attribute value below it is unknown.
+	Unknown bool
 }
 
 // Content is the result of applying a schema.
@@ -108,11 +111,14 @@ func (v *View) Partial(s Schema) (Content, *View) {
 				c.LabelMismatch = true
 				continue
 			}
+			if x.Phantom {
+				continue
+			}
 			labels := make([]string, len(x.Labels))
 			for i, l := range x.Labels {
 				labels[i] = l.Text
 			}
-			c.Blocks = append(c.Blocks, MBlock{x.Type, labels, x.Body})
+			c.Blocks = append(c.Blocks, MBlock{Type: x.Type, Labels: labels, Body: x.Body, Unknown: x.Unknown})
 		}
 	}
 	for _, a := range s.Attrs {
